@@ -29,7 +29,16 @@ def run(tier, seed):
     if tier == "thorough":
         r3 = S.run_spec(4, simulate=400, seed=seed + 1)
         run.add_tlc(r3, "AurelStore simulate 4 saves")
-        records += r3.printed
+
+        def wellformed(rec):
+            # a simulated behaviour shows only ONE of the outcomes the spec allows for a call that selects a foreign iteration;
+            # only behaviours without such calls have a single allowed disk state
+            for op in rec["hist"]:
+                d = S.DICTS[op["d"] - 1]
+                if d["it"] and not set(op["it"]) <= set(d["it"]):
+                    return False
+            return True
+        records += [p for p in r3.printed if isinstance(p, dict) and "hist" in p and wellformed(p)]
     jobs, results = S.replay_all(records)
     run.traces += consume(run, "C13", jobs, results)
     for (hist, allowed, _) in jobs[:: max(1, len(jobs) // 5)][:5]:
